@@ -280,12 +280,22 @@ def metric_session(ctx, spec):
         zdata = torch.tensor(DATA, dtype=torch.double)
         metrics["nll"] = lambda state, **kw: ts.NLL(state, zdata, kw["space"])
     names = list(metrics)
-    logf = os.path.join(ctx.scratch, "mlog_%d.csv" % ctx.evaluations)
-    if os.path.exists(logf):
+    logf = os.path.join(ctx.scratch, "mlog_%d.csv" % ctx.evaluations) if spec.get("log", True) else None
+    if logf and os.path.exists(logf):
         os.remove(logf)
-    ok, me = ctx.call("MetricEvaluator construction", case, lambda: MetricEvaluator(p, metrics, log=logf, space=space))
+    verbose = bool(spec.get("verbose", False))
+    pgiven = np.int64(p) if spec.get("ptype") == "np.int64" else p
+    form = spec.get("form", 0)      # how the optional arguments are passed
+    if form == 1:
+        mk = lambda: MetricEvaluator(pgiven, metrics, verbose, logf, space=space)
+    elif form == 2 and not verbose and logf is None:
+        mk = lambda: MetricEvaluator(pgiven, metrics, space=space)
+    else:
+        mk = lambda: MetricEvaluator(period=pgiven, metrics=metrics, verbose=verbose, log=logf, space=space)
+    ok, me = ctx.call("MetricEvaluator construction", case, mk)
     if not ok:
         return
+    ctx.count("evaluator_options:verbose=%s,log=%s" % (verbose, logf is not None))
     probe = C["Probe"](lambda st: {n: f(st, space=space) for n, f in metrics.items()})
     cbs = [clock, probe, me] if spec.get("probe_before", True) else [clock, me, probe]
     # LambdaCallback with all hooks left at their defaults, and with only some hooks given (documented use)
@@ -360,13 +370,15 @@ def check_metric_state(ctx, case, me, names, p, exp_past, exp_log, mops, logf):
                 list(me.last) == list(want_last) and same_vals(list(me.last.values()), list(want_last.values())), case,
                 {"last": {k: float(v) for k, v in me.last.items()}, "want": {k: float(v) for k, v in want_last.items()}})
     ctx.require("evaluator.names == metric names", list(me.names) == names, case)
-    with open(logf) as f:
-        rows = list(csv.reader(f))
-    ctx.require("CSV header == epoch + metric names", rows[:1] == [["epoch"] + names], case, rows[:1])
-    body = parse_body(rows[1:])
-    want_body = [[e] + [float(v[nm]) for nm in names] for e, v in exp_log]
-    ctx.require("CSV body == one row (epoch, values in field order) per evaluation", canon(body) == canon(want_body), case,
-                {"body": body, "want": want_body})
+    body = None
+    if logf is not None:
+        with open(logf) as f:
+            rows = list(csv.reader(f))
+        ctx.require("CSV header == epoch + metric names", rows[:1] == [["epoch"] + names], case, rows[:1])
+        body = parse_body(rows[1:])
+        want_body = [[e] + [float(v[nm]) for nm in names] for e, v in exp_log]
+        ctx.require("CSV body == one row (epoch, values in field order) per evaluation", canon(body) == canon(want_body), case,
+                    {"body": body, "want": want_body})
     # ---- correspondence with the model
     allq = [(nm, i) for nm in names + ["zz"] for i in list(range(-n - 2, n + 2)) + [None]]
     vmask = [nm != "zz" and ((i is None and n > 0) or (i is not None and -n <= i < n)) for nm, i in allq]
@@ -376,9 +388,9 @@ def check_metric_state(ctx, case, me, names, p, exp_past, exp_log, mops, logf):
     impl = [len(me), [int(e) for e in me.epochs],
             [res(lambda: me[nm], canon) for nm in names],
             [[codes(k), float(v)] for k, v in me.last.items()],
-            [[r[0], [cell_enc(x) for x in r[1:]]] for r in body],
+            [[r[0], [cell_enc(x) for x in r[1:]]] for r in body] if body is not None else "no log file",
             [r for r, v in zip(implq, vmask) if v]]
-    modv = list(mod[:5]) + [[r for r, v in zip(mod[5], vmask) if v]]
+    modv = list(mod[:4]) + [mod[4] if body is not None else "no log file"] + [[r for r, v in zip(mod[5], vmask) if v]]
     ctx.agree_exact("MetricEvaluator accessors vs model", canon(impl), canon(modv), case)
     # invalid indices / untracked names: not constrained by the property, histogram only
     info(ctx, "get_value invalid index or untracked name (error kind)",
@@ -403,12 +415,22 @@ def obs_session(ctx, spec):
     observables = [SigmaZ(), C["StubObs"]("Stub", clock, spec["script"])]
     names = [o.name for o in observables]
     kw = {"num_samples": 4, "num_chains": 4, "burn_in": 1, "steps": 1}
-    logf = os.path.join(ctx.scratch, "olog_%d.csv" % ctx.evaluations)
-    if os.path.exists(logf):
+    logf = os.path.join(ctx.scratch, "olog_%d.csv" % ctx.evaluations) if spec.get("log", True) else None
+    if logf and os.path.exists(logf):
         os.remove(logf)
-    ok, oe = ctx.call("ObservableEvaluator construction", case, lambda: ObservableEvaluator(p, observables, log=logf, **kw))
+    verbose = bool(spec.get("verbose", False))
+    pgiven = np.int64(p) if spec.get("ptype") == "np.int64" else p
+    form = spec.get("form", 0)
+    if form == 1:
+        mk = lambda: ObservableEvaluator(pgiven, observables, verbose, logf, **kw)
+    elif form == 2 and not verbose and logf is None:
+        mk = lambda: ObservableEvaluator(pgiven, observables, **kw)
+    else:
+        mk = lambda: ObservableEvaluator(period=pgiven, observables=observables, verbose=verbose, log=logf, **kw)
+    ok, oe = ctx.call("ObservableEvaluator construction", case, mk)
     if not ok:
         return
+    ctx.count("evaluator_options:verbose=%s,log=%s" % (verbose, logf is not None))
     probe = C["Probe"](C["obs_wouldbe"](observables, kw))
     cbs = [clock, probe, oe]        # the probe must sit right before the evaluator (same RNG state)
     exp_past, exp_log, mops = [], [], []
@@ -472,14 +494,16 @@ def check_obs_state(ctx, case, oe, names, p, exp_past, exp_log, mops, logf):
                 list(oe.last) == list(want_last) and all(same_vals(stats_list(oe.last[k]), stats_list(want_last[k])) for k in want_last),
                 case, {"last_keys": list(oe.last)})
     ctx.require("evaluator.names == observable names", list(oe.names) == names, case)
-    with open(logf) as f:
-        rows = list(csv.reader(f))
     fields = ["epoch"] + [nm + "_" + st for nm in names for st in ("mean", "variance", "std_error")]
-    ctx.require("CSV header == epoch + <obs>_mean/_variance/_std_error", rows[:1] == [fields], case, rows[:1])
-    body = parse_body(rows[1:])
-    want_body = [[e] + [float(v[nm][st]) for nm in names for st in ("mean", "variance", "std_error")] for e, v in exp_log]
-    ctx.require("CSV body == one row (epoch, statistics in field order) per evaluation", canon(body) == canon(want_body), case,
-                {"body": body, "want": want_body})
+    body = None
+    if logf is not None:
+        with open(logf) as f:
+            rows = list(csv.reader(f))
+        ctx.require("CSV header == epoch + <obs>_mean/_variance/_std_error", rows[:1] == [fields], case, rows[:1])
+        body = parse_body(rows[1:])
+        want_body = [[e] + [float(v[nm][st]) for nm in names for st in ("mean", "variance", "std_error")] for e, v in exp_log]
+        ctx.require("CSV body == one row (epoch, statistics in field order) per evaluation", canon(body) == canon(want_body), case,
+                    {"body": body, "want": want_body})
     # ---- correspondence with the model
     idxs = list(range(-n - 2, n + 2)) + [None]
     allq = [(nm, i) for nm in names + ["zz"] for i in idxs]
@@ -507,10 +531,11 @@ def check_obs_state(ctx, case, oe, names, p, exp_past, exp_log, mops, logf):
     impl_data = [data_of(nm) for nm in names]
     impl = [len(oe), [int(e) for e in oe.epochs], [split_data(d, True) for d in impl_data],
             [[codes(k), dict_enc(v)] for k, v in oe.last.items()],
-            [[r[0], [cell_enc(x) for x in r[1:]]] for r in body],
+            [[r[0], [cell_enc(x) for x in r[1:]]] for r in body] if body is not None else "no log file",
             [r for r, v in zip(implq, vmask) if v],
             [codes(f) for f in fields[1:]]]
-    modv = [mod[0], mod[1], [split_data(d, True) for d in mod[2]], mod[3], mod[4], [r for r, v in zip(mod[5], vmask) if v], mod[6]]
+    modv = [mod[0], mod[1], [split_data(d, True) for d in mod[2]], mod[3], mod[4] if body is not None else "no log file",
+            [r for r, v in zip(mod[5], vmask) if v], mod[6]]
     ctx.agree_exact("ObservableEvaluator accessors vs model", canon(impl), canon(modv), case)
     info(ctx, "get_value invalid index or untracked name (error kind)",
          canon([r for r, v in zip(implq, vmask) if not v]) == canon([r for r, v in zip(mod[5], vmask) if not v]))
@@ -566,7 +591,28 @@ def saver_session(ctx, spec):
     case = {"session": "saver", "spec": spec}
     s, extra = make_state(spec)
     p, save_initial, md_kind, md_only = spec["period"], spec["save_initial"], spec["md"], spec["md_only"]
-    folder = os.path.join(ctx.scratch, "sv_%d" % ctx.evaluations)
+    # ---- folder configuration: fresh / already existing (empty) / already holding an unrelated file and the files of an
+    #      earlier saver / nested path that does not exist yet; given as str, str with a trailing separator, or pathlib.Path
+    fcfg = spec.get("folder", "fresh")
+    root = os.path.join(ctx.scratch, "sv_%d" % ctx.evaluations)
+    tmpl = spec.get("file_name", "ck_{}.pt")
+    pre = {}                    # pre-existing file name -> bytes
+    if fcfg == "nested":
+        folder = os.path.join(root, "a", "b c", "d")
+    else:
+        folder = root
+    if fcfg in ("existing", "populated"):
+        os.makedirs(folder)
+    if fcfg == "populated":
+        pre = {"notes.txt": b"unrelated", tmpl.format(99): b"old-99", tmpl.format(2): b"old-2"}
+        if spec["save_initial"] is not False:
+            pre[tmpl.format("initial")] = b"old-initial"
+        for f, b in pre.items():
+            with open(os.path.join(folder, f), "wb") as fh:
+                fh.write(b)
+    import pathlib
+    fgiven = {"str": folder, "slash": folder + os.sep, "path": pathlib.Path(folder)}[spec.get("folder_arg", "str")]
+    ctx.count("saver_folder:%s/%s" % (fcfg, spec.get("folder_arg", "str"))); ctx.count("saver_file_name:" + tmpl)
     probe = C["Probe"]()
     the_dict = {"tag": 7, "lst": [1, 2]}
     the_dict_copy = json.loads(json.dumps(the_dict))
@@ -576,9 +622,31 @@ def saver_session(ctx, spec):
         md_calls.append(int(epoch))
         return {"epoch": int(epoch), "sid": len(probe.snaps) - 1, "w": first_w(C["snapshot"](state))}
     md = {"none": None, "dict": the_dict, "callable": md_fn}[md_kind]
-    ok, sv = ctx.call("ModelSaver construction", case, lambda: ModelSaver(p, folder, "ck_{}.pt", save_initial=save_initial,
-                                                                           metadata=md, metadata_only=md_only))
+    pgiven = np.int64(p) if spec.get("ptype") == "np.int64" else p
+    form = spec.get("form", 0)
+    if form == 1:                       # everything positional
+        mk = lambda: ModelSaver(pgiven, fgiven, tmpl, True if save_initial is None else save_initial, md, md_only)
+    elif form == 2:                     # everything by keyword, defaults omitted where they apply
+        kwa = dict(period=pgiven, folder_path=fgiven, file_name=tmpl)
+        if save_initial is not None:
+            kwa["save_initial"] = save_initial
+        if md is not None:
+            kwa["metadata"] = md
+        if md_only:
+            kwa["metadata_only"] = True
+        mk = lambda: ModelSaver(**kwa)
+    else:
+        kwa = dict(metadata=md, metadata_only=md_only)
+        if save_initial is not None:
+            kwa["save_initial"] = save_initial
+        mk = lambda: ModelSaver(pgiven, fgiven, tmpl, **kwa)
+    ok, sv = ctx.call("ModelSaver construction (folder: %s)" % fcfg, case, mk)
+    if save_initial is None:            # the documented default
+        save_initial = True
     if not ok:
+        return
+    ctx.require("ModelSaver creates its folder", os.path.isdir(folder), case, {"folder": fcfg})
+    if not os.path.isdir(folder):
         return
     saves = []
     orig_save = torch.save
@@ -615,10 +683,10 @@ def saver_session(ctx, spec):
         sid0 = probe.starts[-1]
         evs = probe.events[n0:]
         if save_initial:
-            want_writes.append(("ck_initial.pt", sid0, 0))
+            want_writes.append((tmpl.format("initial"), sid0, 0))
         for ev in evs:
             if ev["epoch"] % p == 0:
-                want_writes.append(("ck_%d.pt" % ev["epoch"], ev["sid"], ev["epoch"])); fired_any = True
+                want_writes.append((tmpl.format(ev["epoch"]), ev["sid"], ev["epoch"])); fired_any = True
             else:
                 skipped_any = True
         mfits.append([sid0, [[ev["epoch"], ev["sid"]] for ev in evs]])
@@ -629,16 +697,26 @@ def saver_session(ctx, spec):
     final = {}
     for w in want_writes:
         final[w[0]] = w
-    ctx.require("the folder holds exactly the expected files", sorted(os.listdir(folder)) == sorted(final), case,
-                {"files": sorted(os.listdir(folder)), "want": sorted(final)})
+    ctx.require("the folder holds exactly the expected files (named by file_name.format(epoch) / .format('initial')) besides what was there before",
+                sorted(os.listdir(folder)) == sorted(set(final) | set(pre)), case,
+                {"files": sorted(os.listdir(folder)), "want": sorted(set(final) | set(pre)), "file_name": tmpl})
+    for f, b in pre.items():
+        if f not in final and os.path.exists(os.path.join(folder, f)):
+            with open(os.path.join(folder, f), "rb") as fh:
+                ctx.require("a file that was in the folder before and is not due at any epoch of the run is left untouched", fh.read() == b, case, {"file": f})
+    name_enc = {tmpl.format("initial"): [0]} if save_initial else {}
+    for ev in probe.events:
+        name_enc.setdefault(tmpl.format(ev["epoch"]), [1, ev["epoch"]])
     if md_kind == "callable":       # how often the callable is invoked is not constrained; what is saved is (below)
         info(ctx, "metadata callable called once per save", md_calls == [w[2] for w in want_writes])
     ctx.require("the caller's metadata dict is not modified", the_dict == the_dict_copy, case, the_dict)
     has_ud = hasattr(s, "unitary_dict")
     impl_store = []
     for fname in sorted(os.listdir(folder)):
+        if fname not in final:
+            continue
         ok, obj = ctx.call("torch.load of a saved file", case, lambda: torch.load(os.path.join(folder, fname), weights_only=False))
-        if not ok or fname not in final:
+        if not ok:
             continue
         _, sid, ep = final[fname]
         snap = probe.snaps[sid]
@@ -671,10 +749,10 @@ def saver_session(ctx, spec):
             menc = [1]
         else:
             menc = [0] if isinstance(got_md, dict) else [9]
-        fenc = [0] if fname == "ck_initial.pt" else [1, int(fname[3:-3])]
+        fenc = name_enc.get(fname, [9])
         impl_store.append((fenc, [[full, got_sid, menc]]))
     # ---- correspondence with the model
-    mod = ctx.get_model().call("c17_saver_session", p, save_initial, {"none": 0, "dict": 1, "callable": 2}[md_kind], md_only, mfits)
+    mod = ctx.get_model().call("c17_saver_session", p, bool(save_initial), {"none": 0, "dict": 1, "callable": 2}[md_kind], bool(md_only), mfits)
     mod_writes, mod_store = mod
 
     def canon_sid(i):
@@ -683,7 +761,7 @@ def saver_session(ctx, spec):
             return i
         sn = probe.snaps[i]
         return next(j for j, o in enumerate(probe.snaps) if all(torch.equal(o[net][k], sn[net][k]) for net in sn for k in sn[net]))
-    mw = ["ck_initial.pt" if int(w[0][0]) == 0 else "ck_%d.pt" % int(w[0][1]) for w in mod_writes]
+    mw = [tmpl.format("initial") if int(w[0][0]) == 0 else tmpl.format(int(w[0][1])) for w in mod_writes]
     ctx.agree_exact("ModelSaver write order vs model", dirp.writes, mw, case)
     ms = sorted([(canon(f), [[int(c[0]), canon_sid(c[1]), canon(c[2])] for c in cont]) for f, cont in mod_store])
     ims = sorted([(canon(f), [[c[0], c[1] if c[1] < 0 else canon_sid(c[1]), canon(c[2])] for c in cont]) for f, cont in impl_store])
@@ -716,7 +794,8 @@ def saver_session(ctx, spec):
                     {"period": lpx, "lines": [str(l)[:40] for l in lines[:12]], "want_epochs": want_e})
         ctx.agree_exact(what + ": number of calls vs model", len(lines), len(ctx.get_model().call("c17_logger_session", lpx, fits_flat)), case)
     ctx.case({"session": "saver", "state": spec["state"], "p": p, "init": save_initial, "md": md_kind, "md_only": md_only,
-              "fits": spec["fits"], "tseed": spec["tseed"]}, nontrivial=fired_any and (p == 1 or skipped_any))
+              "fits": spec["fits"], "tseed": spec["tseed"], "folder": fcfg, "folder_arg": spec.get("folder_arg", "str"), "file_name": tmpl,
+              "form": spec.get("form", 0)}, nontrivial=fired_any and (p == 1 or skipped_any))
     ctx.count("saver:md=%s%s" % (md_kind, ",only" if md_only else "")); ctx.count("state:" + spec["state"])
 
 
@@ -743,6 +822,23 @@ def script_for(rng):
     return [float(x) for x in np.round(rng.normal(size=int(rng.integers(3, 9))), 3)]
 
 
+FILE_NAMES = ["ck_{}.pt", "ck_{}.pt", "{}", "ck_{0}.pt", "ck_{:>5}.pt", "e{}.model"]
+
+
+def ev_options(rng):
+    """option flags and call forms of the evaluators: verbose x log independently, period type, positional / keyword / defaults"""
+    return {"verbose": bool(rng.random() < 0.35), "log": bool(rng.random() < 0.7), "form": int(rng.integers(3)),
+            "ptype": "np.int64" if rng.random() < 0.25 else "int"}
+
+
+def saver_options(rng, init):
+    names = FILE_NAMES + (["ck_{:03d}.pt"] if init is False else [])
+    return {"folder": ["fresh", "existing", "populated", "nested"][int(rng.integers(4))],
+            "folder_arg": ["str", "slash", "path"][int(rng.integers(3))],
+            "file_name": names[int(rng.integers(len(names)))], "form": int(rng.integers(3)),
+            "ptype": "np.int64" if rng.random() < 0.25 else "int"}
+
+
 def specs(ctx):
     rng = ctx.rng
     full = ctx.thorough
@@ -758,8 +854,8 @@ def specs(ctx):
                 if r < 0.35:      # a second run, with or without clear_history in between
                     a2, b2 = ranges[int(rng.integers(len(ranges)))]
                     ops += ([("clear",)] if rng.random() < 0.6 else []) + [("fit", a2, b2, None)]
-                out.append(("metric", {"state": kind, "period": p, "ops": ops, "tseed": int(rng.integers(1 << 30)),
-                                       "script": script_for(rng), "probe_before": bool(rng.random() < 0.5)}))
+                out.append(("metric", dict({"state": kind, "period": p, "ops": ops, "tseed": int(rng.integers(1 << 30)),
+                                            "script": script_for(rng), "probe_before": bool(rng.random() < 0.5)}, **ev_options(rng))))
     obs_ranges = ranges if full else ranges[:4]
     for p in range(1, 6):
         for ri, (a, b) in enumerate(obs_ranges):
@@ -769,8 +865,9 @@ def specs(ctx):
             ops = [("fit", a, b, stop)]
             if rng.random() < 0.4:
                 ops += ([("clear",)] if rng.random() < 0.6 else []) + [("fit", 1, int(rng.integers(1, 7)), None)]
-            out.append(("obs", {"state": kinds[(ri + p) % 3], "period": p, "ops": ops, "tseed": int(rng.integers(1 << 30)),
-                                "script": [[float(np.round(rng.normal(), 3)), float(np.round(rng.uniform(0.1, 2), 3))] for _ in range(5)]}))
+            out.append(("obs", dict({"state": kinds[(ri + p) % 3], "period": p, "ops": ops, "tseed": int(rng.integers(1 << 30)),
+                                     "script": [[float(np.round(rng.normal(), 3)), float(np.round(rng.uniform(0.1, 2), 3))] for _ in range(5)]},
+                                    **ev_options(rng))))
     for i in range(40 if full else 8):
         k = int(rng.integers(2, 5))
         periods = [int(x) for x in rng.integers(1, 6, size=k)]
@@ -788,13 +885,35 @@ def specs(ctx):
                 if rng.random() < 0.5:
                     a2, b2 = ranges[int(rng.integers(len(ranges)))]
                     fits.append(("fit", a2, b2, None))
-                out.append(("saver", {"state": kind, "period": p, "save_initial": init, "md": md, "md_only": only, "fits": fits,
-                                      "lg_period": int(rng.integers(1, 6)), "tseed": int(rng.integers(1 << 30))}))
+                out.append(("saver", dict({"state": kind, "period": p, "save_initial": init, "md": md, "md_only": only, "fits": fits,
+                                           "lg_period": int(rng.integers(1, 6)), "tseed": int(rng.integers(1 << 30))},
+                                          **saver_options(rng, init))))
     # the case of the repaired defect: dict metadata on a state with a unitary dictionary, several saves
     fixed = [("saver", {"state": "complex", "period": 1, "save_initial": True, "md": "dict", "md_only": False,
                         "fits": [("fit", 1, 4, None), ("fit", 5, 6, None)], "lg_period": 2, "tseed": 11}),
              ("saver", {"state": "dm", "period": 2, "save_initial": True, "md": "dict", "md_only": False,
-                        "fits": [("fit", 1, 6, None)], "lg_period": 3, "tseed": 12})]
+                        "fits": [("fit", 1, 6, None)], "lg_period": 3, "tseed": 12}),
+             # folder configurations and file-name blanks (always run: these are among the first saver sessions)
+             ("saver", {"state": "positive", "period": 2, "save_initial": True, "md": "callable", "md_only": False, "folder": "populated",
+                        "folder_arg": "str", "file_name": "ck_{0}.pt", "fits": [("fit", 1, 5, None)], "lg_period": 2, "tseed": 13}),
+             ("saver", {"state": "positive", "period": 1, "save_initial": False, "md": "none", "md_only": False, "folder": "nested",
+                        "folder_arg": "path", "file_name": "ck_{:03d}.pt", "fits": [("fit", 0, 3, None)], "lg_period": 1, "tseed": 14}),
+             ("saver", {"state": "complex", "period": 3, "save_initial": None, "md": "dict", "md_only": True, "folder": "existing",
+                        "folder_arg": "slash", "file_name": "ck_{:>5}.pt", "form": 2, "fits": [("fit", 1, 7, None), ("fit", 1, 3, None)],
+                        "lg_period": 2, "tseed": 15}),
+             ("saver", {"state": "positive", "period": 2, "save_initial": True, "md": "none", "md_only": False, "folder": "fresh",
+                        "folder_arg": "str", "file_name": "{}", "form": 1, "fits": [("fit", 1, 4, None)], "lg_period": 4, "tseed": 16}),
+             # evaluator option flags: printing together with logging, no log at all, positional / default call forms
+             ("metric", {"state": "positive", "period": 2, "ops": [("fit", 1, 6, None), ("clear",), ("fit", 1, 4, None)], "tseed": 17,
+                         "script": [0.5, -1.25, 2.0], "probe_before": True, "verbose": True, "log": True, "form": 0}),
+             ("metric", {"state": "positive", "period": 1, "ops": [("fit", 1, 3, None)], "tseed": 18,
+                         "script": [0.5, -1.25, 2.0], "probe_before": False, "verbose": True, "log": False, "form": 1, "ptype": "np.int64"}),
+             ("metric", {"state": "complex", "period": 3, "ops": [("fit", 0, 6, None)], "tseed": 19,
+                         "script": [1.0, 2.0], "probe_before": True, "verbose": False, "log": False, "form": 2}),
+             ("obs", {"state": "positive", "period": 2, "ops": [("fit", 1, 5, None)], "tseed": 20, "script": [[0.1, 0.5], [0.3, 1.5]],
+                      "verbose": True, "log": True, "form": 0}),
+             ("obs", {"state": "dm", "period": 1, "ops": [("fit", 1, 3, None)], "tseed": 21, "script": [[0.1, 0.5], [0.3, 1.5]],
+                      "verbose": True, "log": False, "form": 1, "ptype": "np.int64"})]
     return fixed + out        # run() interleaves the kinds; these two are the first saver sessions
 
 
